@@ -1542,7 +1542,22 @@ impl World {
         } else if had_snapshot {
             self.nodes[i].live.as_mut().unwrap().snap_ack_pending = true;
         }
+        self.enable_unp(i);
         true
+    }
+
+    /// Apply-before-persist is a run-time switch: Raft::new (through become_follower) and every
+    /// step-down reset it to 0, whatever Config says. The application turns it on when a Ready
+    /// round has shown it that the node leads (what the TODO in become_follower describes).
+    fn enable_unp(&mut self, i: usize) {
+        let limit = self.cfg(i).max_apply_unpersisted;
+        if limit == 0 {
+            return;
+        }
+        let l = self.nodes[i].live.as_mut().unwrap();
+        if l.rn.raft.state == StateRole::Leader && l.rn.raft.raft_log.max_apply_unpersisted_log_limit == 0 {
+            l.rn.raft.set_max_apply_unpersisted_log_limit(limit);
+        }
     }
 
     fn write_checked(&mut self, i: usize, number: u64, op: WriteOp, ctx: &mut Ctx) {
@@ -1659,6 +1674,7 @@ impl World {
         } else if had_snapshot {
             self.nodes[i].live.as_mut().unwrap().snap_ack_pending = true;
         }
+        self.enable_unp(i);
         true
     }
 
